@@ -241,6 +241,11 @@ func space(thorough bool) ([]*block, bound) {
 		[]byte("x/.\x1b(B./.\x1b(B./evil\xe9/f"),
 		[]byte("a/.\x1b(B./.\x1b(B./.\x1b(B./\xe9/a"),
 		[]byte("x/.\x1b(B./.\x1b(B./.\x1b(B./planted\xff/evil.txt"),
+		// escaping names that quote the texts by which the library recognises other error kinds (the refusal quotes the name)
+		[]byte("../file exists"),
+		[]byte("../i/o timeout"),
+		[]byte("a/../../not supported/x"),
+		[]byte("../bad file descriptor"),
 	}
 	blocks := []*block{
 		{id: "all-forms", names: allFormsNames, shapes: mainShapes, targets: product(all, "os", "mem"), destExists: true, limits: none},
